@@ -235,12 +235,24 @@ pub fn run(_prop: &str, cases: &[String]) -> RunOut {
         match t[0] {
             "tok" => run_tok(&unhex(t[1]), &unhex(t[2]), &mut out, line),
             "tokref" => run_tokref(&unhex(t[1]), &mut out, line),
+            "tokconst" => {
+                // the public constants and id helpers, compared with the regenerated model constants
+                let ids = spl_generic_token::spl_token_ids();
+                let mut err = None;
+                if ids != vec![spl_generic_token::token::id(), spl_generic_token::token_2022::id()] { err = Some("spl_token_ids is not [token, token-2022]".to_string()); }
+                if ids.iter().any(|i| !spl_generic_token::is_known_spl_token_id(i)) { err = Some("a listed id is not known".into()); }
+                let s = format!("ids={} acc={} mint={}", ids.iter().map(|i| hex(i.as_ref())).collect::<Vec<_>>().join(","),
+                    spl_generic_token::token::Account::get_packed_len(), spl_generic_token::token::Mint::get_packed_len());
+                out.stats.bump("tokconst");
+                out.push(s, err.map_or(Ok(()), Err));
+            }
             other => panic!("unknown op {other}"),
         }
     }
     out
 }
 
+pub const CONST_CASE: &str = "tokconst";
 const LENS: &[usize] = &[0, 1, 44, 45, 46, 72, 81, 82, 83, 107, 108, 109, 164, 165, 166, 167, 248, 354, 355, 356];
 
 fn interesting_byte(rng: &mut Rng) -> u8 {
@@ -282,7 +294,11 @@ fn gen_prog(rng: &mut Rng) -> [u8; 32] {
 
 pub fn generate_c17(tier: &str, rng: &mut Rng) -> Vec<String> {
     let n = if tier == "thorough" { 200_000 } else { 6_000 };
-    let mut v = Vec::new();
+    let mut v = vec![CONST_CASE.to_string()];
+    // the native mint's canned account data under both ids and an unknown one
+    for id in [spl_generic_token::token::id(), spl_generic_token::token_2022::id(), Pubkey::default()] {
+        v.push(format!("tok {} {}", hex(&spl_generic_token::token::native_mint::ACCOUNT_DATA), hex(id.as_ref())));
+    }
     // boundary enumeration: every layout length x marker bytes x both ids
     for &len in LENS {
         for b165 in [0u8, 1, 2, 3] {
@@ -422,7 +438,7 @@ fn real_extended_mint(rng: &mut Rng) -> Vec<u8> {
 
 pub fn generate_c16(tier: &str, rng: &mut Rng) -> Vec<String> {
     let n = if tier == "thorough" { 100_000 } else { 4_000 };
-    let mut v = Vec::new();
+    let mut v = vec![CONST_CASE.to_string(), format!("tokref {}", hex(&spl_generic_token::token::native_mint::ACCOUNT_DATA))];
     for _ in 0..n {
         let mut d = match rng.below(8) {
             0 => packed_account(rng),
